@@ -101,12 +101,12 @@ func (c *Ctx) benignClass(si *siteInfo, l Lit) string {
 	if (l.Kind == "or" || l.Kind == "and") && len(l.Subs) > 0 {
 		all := true
 		for _, s := range l.Subs {
-			if !nilCheck(s) {
+			if !nilCheck(s) && !c.isEmptyIndexCall(s) {
 				all = false
 			}
 		}
-		if all {
-			return "nil checks"
+		if all && (l.Kind == "and") == !l.Pos || all && allNil(l.Subs) {
+			return "nil checks / empty-index fast path"
 		}
 	}
 	if x, t, _ := typeAssertOK(l); x != nil {
@@ -128,14 +128,9 @@ func (c *Ctx) benignClass(si *siteInfo, l Lit) string {
 			return "ResultOf comma-ok"
 		}
 	}
-	if call := litCall(l); call != nil && !l.Pos {
-		name := P.calleeName(call.Common())
-		if strings.HasSuffix(name, ").Empty") && len(call.Call.Args) == 1 {
-			// fast path "index is empty": membership in an empty index is false anyway
-			if P.originatesOnlyFrom(call.Call.Args[0], "indexing.Build") {
-				return "empty-index fast path"
-			}
-		}
+	if !l.Pos && c.isEmptyIndexCall(l) {
+		// fast path "index is empty": membership in an empty index is false anyway
+		return "empty-index fast path"
 	}
 	if l.Via != "" && l.Kind == "cond" {
 		// literal obtained by expanding a helper: the helper call literal itself is what gets classified
@@ -479,4 +474,36 @@ func (c *Ctx) roleOf(r ssa.Value, depth int) string {
 		}
 	}
 	return "?"
+}
+
+func allNil(ls []Lit) bool {
+	for _, l := range ls {
+		if !nilCheck(l) {
+			return false
+		}
+	}
+	return true
+}
+
+// isEmptyIndexCall: literal is <index>.Empty() on an index built by an indexing.Build* function.
+func (c *Ctx) isEmptyIndexCall(l Lit) bool {
+	call := litCall(l)
+	if call == nil {
+		return false
+	}
+	name := c.P.calleeName(call.Common())
+	if !strings.HasSuffix(name, ").Empty") || len(call.Call.Args) != 1 {
+		return false
+	}
+	return c.P.originatesOnlyFrom(call.Call.Args[0], "indexing.Build")
+}
+
+// isPassIgnoreSet: v is the ignore set produced by the IgnoreReader for this pass.
+func (c *Ctx) isPassIgnoreSet(v ssa.Value) bool {
+	P := c.P
+	d := P.Desc(v)
+	if strings.Contains(d, "global(analyzer.IgnoreReader)") && strings.Contains(d, "ignore.IgnoreResult.IgnoreSet") {
+		return true
+	}
+	return P.RootsAllDeep(v, func(r ssa.Value) bool { return P.CallTo(r, "ignore.ReadIgnoreAnnotations") != nil })
 }
